@@ -11,7 +11,7 @@ import (
 
 func init() {
 	props["C15"] = c15
-	floors["C15"] = map[string]int{"C15.R1": 2, "C15.R2": 4, "C15.R3": 3, "C15.R4": 6, "C15.R5": 4}
+	floors["C15"] = map[string]int{"C15.R1": 2, "C15.R2": 4, "C15.R3": 3, "C15.R4": 6, "C15.R5": 6}
 }
 
 var loggerPkgs = []string{"messageview", "har", "marbl", "martianlog"}
@@ -28,6 +28,65 @@ func msgFieldAddr(v ssa.Value, name string) ssa.Value {
 		return fa.X
 	}
 	return nil
+}
+
+// isHeaderValues: v is (a view of) a []string taken out of an http.Header map
+// by indexing or ranging, possibly through conversions, re-slicing and phis.
+func isHeaderValues(v ssa.Value) bool {
+	seen := map[ssa.Value]bool{}
+	var walk func(v ssa.Value) bool
+	walk = func(v ssa.Value) bool {
+		if v == nil || seen[v] {
+			return false
+		}
+		seen[v] = true
+		isHdr := func(t types.Type) bool {
+			s := t.String()
+			return s == "net/http.Header" || s == "net/textproto.MIMEHeader"
+		}
+		switch x := v.(type) {
+		case *ssa.Lookup:
+			return isHdr(x.X.Type())
+		case *ssa.Extract:
+			if nx, ok := x.Tuple.(*ssa.Next); ok && x.Index == 2 {
+				if rg, ok := nx.Iter.(*ssa.Range); ok {
+					return isHdr(rg.X.Type())
+				}
+			}
+			if lk, ok := x.Tuple.(*ssa.Lookup); ok && x.Index == 0 {
+				return isHdr(lk.X.Type())
+			}
+		case *ssa.Call:
+			n := calleeName(x)
+			return n == "(net/http.Header).Values" || n == "(net/textproto.MIMEHeader).Values"
+		case *ssa.ChangeType:
+			return walk(x.X)
+		case *ssa.Convert:
+			return walk(x.X)
+		case *ssa.MakeInterface:
+			return walk(x.X)
+		case *ssa.Slice:
+			return walk(x.X)
+		case *ssa.Phi:
+			for _, e := range x.Edges {
+				if walk(e) {
+					return true
+				}
+			}
+		case *ssa.UnOp:
+			if x.Op == token.MUL {
+				if a, ok := x.X.(*ssa.Alloc); ok {
+					for _, st := range storesTo(a) {
+						if walk(st.Val) {
+							return true
+						}
+					}
+				}
+			}
+		}
+		return false
+	}
+	return walk(v)
 }
 
 func c15(r *Report) {
@@ -186,6 +245,37 @@ func c15(r *Report) {
 					}
 				}
 			}
+			// the value slices of a header map are the live message's storage
+			// (Header.Map(), Header.Values and map indexing all share them):
+			// sorting, overwriting or appending to them edits the message
+			for _, f := range w.Funcs(pkg) {
+				for _, in := range instrs(f) {
+					var victim ssa.Value
+					what := ""
+					switch x := in.(type) {
+					case *ssa.Store:
+						if ia, ok := x.Addr.(*ssa.IndexAddr); ok {
+							victim, what = ia.X, "an element store"
+						}
+					case ssa.CallInstruction:
+						cc := x.Common()
+						switch n := calleeName(x); n {
+						case "sort.Strings", "sort.Sort", "sort.Stable", "sort.Slice", "sort.SliceStable", "slices.Sort", "slices.SortFunc", "slices.SortStableFunc", "slices.Reverse":
+							if len(cc.Args) > 0 {
+								victim, what = cc.Args[0], n
+							}
+						case "builtin.copy", "builtin.append":
+							if len(cc.Args) > 0 {
+								victim, what = cc.Args[0], n[8:]+" into it"
+							}
+						}
+					}
+					if victim != nil && isHeaderValues(victim) {
+						bad++
+						r.Fail("flow", fmt.Sprintf("%s modifies a header value slice in place (%s)", fnName(f), what), "the value slices obtained from an http.Header belong to the live message: "+what+" reorders or overwrites the header values that are forwarded", nil, in.Pos())
+					}
+				}
+			}
 			r.Sites++
 			if bad == 0 {
 				r.Hold("callgraph", "package "+pkg+" assigns nothing but Body on messages", fmt.Sprintf("%d functions scanned", len(w.Funcs(pkg))), token.NoPos)
@@ -237,6 +327,7 @@ func c15(r *Report) {
 	})
 
 	r.Guard("C15.R4", "an exchange marked skip-logging is recorded by no logger", func() {
+		contextFlagRules(r, "SkipLogging", "SkippingLogging")
 		for _, lt := range []struct{ pkg, typ string }{{"har", "Logger"}, {"martianlog", "Logger"}, {"marbl", "Modifier"}} {
 			T := w.Named(lt.pkg, lt.typ)
 			for _, mn := range []string{"ModifyRequest", "ModifyResponse"} {
@@ -289,6 +380,47 @@ func c15(r *Report) {
 
 	r.Guard("C15.R5", "a chunked snapshot is terminated: the final empty line follows the last chunk and any trailers", func() {
 		mv := w.Named("messageview", "MessageView")
+		// the framing line of a message with a known length is kept, including
+		// "Content-Length: 0": without it the snapshot of an empty response
+		// parses as close-delimited and swallows what follows
+		for _, mn := range []string{"SnapshotRequest", "SnapshotResponse"} {
+			f := w.method(mv, mn)
+			if f == nil {
+				continue
+			}
+			isCL := func(v ssa.Value) bool {
+				ld, ok := v.(*ssa.UnOp)
+				if !ok || ld.Op != token.MUL {
+					return false
+				}
+				return msgFieldAddr(ld.X, "ContentLength") != nil
+			}
+			found := false
+			for _, c := range calls(f, "fmt.Fprintf") {
+				cc := c.Common()
+				if len(cc.Args) < 2 {
+					continue
+				}
+				if k, isK := constString(cc.Args[1]); !isK || !strings.HasPrefix(k, "Content-Length:") {
+					continue
+				}
+				found = true
+				ok := true
+				n := 0
+				for _, ce := range ctrlEdges(c.Block()) {
+					if rel, adm := constCmpAdmits(ce, isCL, 0); rel {
+						n++
+						if !adm {
+							ok = false
+						}
+					}
+				}
+				r.Decide("path", fmt.Sprintf("(*M/messageview.MessageView).%s: the Content-Length line is written for a known length of zero too", mn), ok, fmt.Sprintf("%d guard(s) on ContentLength, all admit 0", n), "the guard on ContentLength excludes 0: the snapshot of a message framed by `Content-Length: 0` has no framing header and does not parse back to the original", c.Pos())
+			}
+			if !found {
+				r.Fail("path", fmt.Sprintf("(*M/messageview.MessageView).%s: the Content-Length line is written for a known length of zero too", mn), "the snapshot never writes a Content-Length line", nil, f.Pos())
+			}
+		}
 		for _, mn := range []string{"SnapshotRequest", "SnapshotResponse"} {
 			f := w.method(mv, mn)
 			key := fmt.Sprintf("(*M/messageview.MessageView).%s: a chunked snapshot ends with an empty line after the trailers", mn)
